@@ -227,11 +227,15 @@ def r19_3(ctx):
         guards = bp.guard_text()
         stores = [e for e in bp.events if e.kind == "store" and U(e.node).startswith("self.behaviors[")]
         splits = [e for e in bp.events if e.kind == "call" and call_tail(e.node) == "split_resolved_shortcode"]
-        is_comment_path = any(pol and U(g) == f"{line}@iter[0] == '#'" for g, pol in bp.guards)
+        def comment_test(g):
+            # line[0] == '#'  /  line.startswith('#')  /  line[:1] == '#'
+            t = U(g)
+            return t in (f"{line}@iter[0] == '#'", f"{line}@iter.startswith('#')", f"{line}@iter[:1] == '#'")
+        is_comment_path = any(pol and comment_test(g) for g, pol in bp.guards)
         if is_comment_path:
             ctx.check("comment lines are skipped", bp.outcome == "continue" and not stores, "continue", f"{bp.outcome}, {len(stores)} stores", w)
             continue
-        other_skip = [U(g) for g, pol in bp.guards if U(g) != f"{line}@iter[0] == '#'" and "__COMPOUND_PART1__" not in U(g)]
+        other_skip = [U(g) for g, pol in bp.guards if not comment_test(g) and "__COMPOUND_PART1__" not in U(g)]
         ok = len(stores) == 1 and len(splits) == 1 and not other_skip
         ctx.check(f"non-comment path [{guards[:70]}] splits the line and stores it", ok, "one split, one store, no further condition", f"splits={len(splits)} stores={len(stores)} extra conditions={other_skip}", w)
         if len(stores) == 1:
